@@ -14,7 +14,7 @@ LEVEL = "model_checking"
 TECHNIQUE = "(a) breadth-first explicit-state search over constructor / encode / decode / discard histories over pairs and triples of command classes with a differential oracle (same operation alone); (b) preemption-bounded exhaustive enumeration of thread schedules at source-line granularity under a sys.settrace + semaphore-baton scheduler owning real threads"
 RULE = ("(a) pool of 10 classes chosen to collide (6/10/12/16-byte CDBs, inherited layout, constructors that raise after touching shared state, "
         "mutable arguments); operations new(X, 2 argument variants), new-invalid(X), X.unmarshall_cdb, X.marshall_cdb, repeat-marshal with the same "
-        "caller objects, a caller-owned segment dictionary re-used after the caller changed its kind (also after a refused construction), first-use in 13 fresh processes (see C02), del; BFS with de-duplication on a digest of class-level state + live objects, all pairs to depth 4 (thorough 5) and all "
+        "caller objects, a caller-owned segment dictionary re-used after the caller changed its kind (also after a refused construction), first-use in 13 fresh processes (see C02), two commands over one caller-owned buffer with the first discarded and garbage-collected (WRITE, WRITE SAME, EXTENDED COPY inline data, ATA PASS-THROUGH 12/16 x all 256 ATA command codes x both directions), del; BFS with de-duplication on a digest of class-level state + live objects, all pairs to depth 4 (thorough 5) and all "
         "triples to depth 3 (thorough 4); in every state every live object and every class's codec is compared with what the same call yields "
         "alone; decode histories A,B,A over every ordered pair of 20 response kinds in a fresh process (result for A identical before and after B). (b) 2 threads (thorough: also 3), each 'c=X(..); bytes(c.cdb); X.unmarshall_cdb; X.marshall_cdb; len(c.datain)', every ordered "
         "pair of pool classes, plus decoder threads (standard INQUIRY, VPD 83h, MODE SENSE(10), REPORT LUNS, RTPG, READ FULL STATUS, READ ELEMENT STATUS, sense) in all ordered pairs, all schedules with at most 1 preemption at every traced source line of the library (thorough: also all schedules with at most 2 preemptions at function-entry granularity for the pairs over 5 classes of different CDB lengths, and 2 preemptions at "
@@ -91,6 +91,7 @@ def partitions(tier):
     parts += [["daba", n] for n in DECODER_CASES if DECODER_CASES[n] is not None]
     from vf.props import c02
     parts += [["first", i] for i in range(c02.N_FIRST)]
+    parts += [["discard"]]
     decs = list(THREAD_DECODERS)
     dq = decs if tier != "quick" else ["dec:inquiry_std", "dec:vpd83", "dec:rtpg", "dec:sense", "dec:prfull"]
     for a in dq:
@@ -456,7 +457,60 @@ def switch_points(x):
     return [(i, x.points[i][2]) for i, c in enumerate(x.choices) if c][:4]
 
 
+def discard_cases():
+    out = []
+    for name in ("Write10", "Write12", "Write16", "WriteSame10", "WriteSame16"):
+        out.append([name, None, 0])
+    for name in ("ATAPassThrough12", "ATAPassThrough16"):
+        for command in range(256):
+            for t_dir in (0, 1):
+                out.append([name, command, t_dir])
+    for name in ("ExtendedCopy4", "ExtendedCopy5"):
+        out.append([name, None, 0])
+    return out
+
+
+def run_discard(case):
+    """two commands built over ONE caller-owned buffer; the first is discarded (reference dropped, garbage collected): the buffer,
+    and with it the second command, must be as before"""
+    import gc
+    name, command, t_dir = case
+    cls = CS.get_class(name)
+    op = opcode_for(name)
+    buf = bytearray(bytes((0x30 + i) & 0xFF for i in range(512)))
+    before = bytes(buf)
+
+    def mk():
+        if name.startswith("ATA"):
+            return cls(op, 4 if t_dir else 5, 2, 1, t_dir, 0, 0, 0, 1, 0, command, data=buf)
+        if name.startswith("WriteSame"):
+            return cls(op, 512, 0, 1, buf)
+        if name.startswith("Write"):
+            return cls(op, 512, 0, 1, buf)
+        return cls(op, inline_data=buf)
+    where = "%s(%s) over a caller-owned buffer" % (name, "command=%#04x, t_dir=%d" % (command, t_dir) if command is not None else "...")
+    try:
+        first, second = mk(), mk()
+    except Exception as e:   # noqa: BLE001
+        return [("discard/construct_raises/%s" % name, "%s: %s: %s" % (where, type(e).__name__, e))]
+    second_before = (bytes(second.cdb), bytes(second.dataout), bytes(second.datain))
+    del first
+    gc.collect()
+    out = []
+    if bytes(buf) != before:
+        out.append(("discard/caller_buffer_changed/%s" % name, "%s: discarding one command changed the caller's buffer (%s... -> %s...)" % (where, before[:8].hex(), bytes(buf)[:8].hex())))
+    if (bytes(second.cdb), bytes(second.dataout), bytes(second.datain)) != second_before:
+        out.append(("discard/other_command_changed/%s" % name, "%s: discarding one command changed another command's CDB or buffers" % where))
+    del second
+    gc.collect()
+    if bytes(buf) != before:
+        out.append(("discard/caller_buffer_changed/%s" % name, "%s: discarding the commands changed the caller's buffer" % where))
+    return out
+
+
 def run_case(case):
+    if case[0] == "discard":
+        return run_discard(case[1])
     if case[0] == "first":
         from vf.props import c02
         return [x for (_, _, v) in c02.run_first_use(case[1]) for x in v]
@@ -491,6 +545,21 @@ MAXTASKS = 1      # fresh forked worker per partition (the decode histories need
 def run_partition(part, tier, seed):
     acc = Acc(seed)
     b = bounds(tier)
+    if part[0] == "discard":
+        for c in discard_cases():
+            case = ["discard", c]
+            acc.case(case, nontrivial=True, key=repr(case))
+            acc.transitions += 3
+            try:
+                v = run_discard(c)
+            except Exception:
+                import traceback
+                v = [("harness_error", traceback.format_exc()[-500:])]
+            for k, w in v:
+                acc.violation(k, w, case)
+            acc.outcome((repr(case), tuple(k for k, _ in v)))
+        acc.traces += 1
+        return acc
     if part[0] == "first":
         from vf.props import c02
         case = ["first", part[1]]
